@@ -116,6 +116,16 @@ def check(case):
         for v, val in ref.initial_conditions().items():
             if not _close(float(y0[v]), val):
                 return outcome(False, "wrong-initial", symptom="wrong-simulator-y0", nontrivial=nt, detail=f"y0[{v}]={y0[v]} expected {val} | {txt}")
+        # overriding a start value on one simulator (before it has simulated anything) is local to it
+        s1 = Simulator(m)
+        s1.update_variable(ref.var_names[0], 100.0)
+        s1.update_variables({ref.var_names[-1]: 50.0})
+        ic_after = m.get_initial_conditions()
+        y0_second = Simulator(m).y0
+        for v, val in ref.initial_conditions().items():
+            if not _close(float(ic_after[v]), val) or not _close(float(y0_second[v]), val):
+                return outcome(False, "wrong-initial", symptom="simulator-override-leaks-into-model", nontrivial=nt,
+                               detail=f"after Simulator(m).update_variable: model initial {v}={ic_after[v]}, new simulator starts at {y0_second[v]}, expected {val} | {txt}")
         a0 = m.get_args()
         for n, val in init.items():
             if not _close(float(a0[n]), val):
